@@ -543,11 +543,11 @@ func (e *executor) callSpec(fr *frame, f *Function, post, pre *State, args []*Va
 	probes := []NamedTerm{}
 	for i, a := range args {
 		if !a.IsPtr && a.W > 1 {
-			extra[fmt.Sprintf("arg%d", i)] = vsVal{a.T, a.W}
+			extra[fmt.Sprintf("arg%d", i)] = mkv(a.T, a.W)
 		}
 	}
 	if rv != nil && !rv.IsPtr && rv.W > 1 {
-		extra["ret"] = vsVal{rv.T, rv.W}
+		extra["ret"] = mkv(rv.T, rv.W)
 	}
 	hook := &hookCtx{pre: pre, post: post, args: args}
 	obligeAt := post
@@ -558,7 +558,7 @@ func (e *executor) callSpec(fr *frame, f *Function, post, pre *State, args []*Va
 			args2[i] = a
 			if !a.IsPtr && a.W > 1 {
 				args2[i] = e.fresh(fmt.Sprintf("%s_arg%db", smt.Sanitize(f.Name), i), a.W)
-				extra[fmt.Sprintf("arg%db", i)] = vsVal{args2[i].T, a.W}
+				extra[fmt.Sprintf("arg%db", i)] = mkv(args2[i].T, a.W)
 			}
 		}
 		e.mute++
@@ -575,7 +575,7 @@ func (e *executor) callSpec(fr *frame, f *Function, post, pre *State, args []*Va
 			return nil
 		}
 		if rv2 != nil && !rv2.IsPtr && rv2.W > 1 {
-			extra["ret2"] = vsVal{rv2.T, rv2.W}
+			extra["ret2"] = mkv(rv2.T, rv2.W)
 		}
 		hook.post2 = out2
 		out2.facts = post.facts
@@ -625,6 +625,12 @@ func (e *executor) callSpec(fr *frame, f *Function, post, pre *State, args []*Va
 	if rv != nil {
 		cr.retW = rv.W
 	}
+	// ids of call-hook obligations: call path + callee#ordinal (source order) + contract
+	// name; no LLVM block label, so that editing the function does not rename them
+	savedCur := fr.cur
+	fr.cur = nil
+	defer func() { fr.cur = savedCur }()
+	e.mathObligations(fr, ref, fs, fr.path+tag+":")
 	for _, c := range fs.Contracts {
 		cl := *obligeAt // contracts are independent claims
 		if o := e.oblige(fr, &cl, ref.Kind, tag+":"+c.Name, smt.Implies(fs.Scope, c.T), "contract "+c.Name+" of "+f.Name+" ("+filepath.Base(fs.File)+")"); o != nil {
